@@ -933,12 +933,42 @@ func (ea ExpressionAttribute) Write(w io.Writer, indent int) (err error) {
 	if err = writeIndent(w, indent, ea.Name, "={\n"); err != nil {
 		return err
 	}
-	for _, line := range lines {
-		if err = writeIndent(w, indent, line, "\n"); err != nil {
+	verbatim := linesContinuingToken(strings.Join(lines, "\n"))
+	for i, line := range lines {
+		// A line that continues a raw string or a block comment is content, not layout: indenting it
+		// would change the value (and add to it on every pass).
+		lineIndent := indent
+		if verbatim[i] {
+			lineIndent = 0
+		}
+		if err = writeIndent(w, lineIndent, line, "\n"); err != nil {
 			return err
 		}
 	}
 	return writeIndent(w, indent, "}")
+}
+
+// linesContinuingToken reports, for each line of Go source, whether the line starts inside a token
+// that began on an earlier line (a raw string literal or a block comment).
+func linesContinuingToken(src string) map[int]bool {
+	inside := make(map[int]bool)
+	var s scanner.Scanner
+	fset := token.NewFileSet()
+	file := fset.AddFile("", fset.Base(), len(src))
+	s.Init(file, []byte(src), nil, scanner.ScanComments)
+	for {
+		pos, tok, lit := s.Scan()
+		if tok == token.EOF {
+			break
+		}
+		if n := strings.Count(lit, "\n"); n > 0 && (tok == token.STRING || tok == token.COMMENT) {
+			first := fset.Position(pos).Line // 1-based line of the token's first line
+			for l := first; l < first+n; l++ {
+				inside[l] = true // 0-based index of the following lines
+			}
+		}
+	}
+	return inside
 }
 
 // <a { spread... } />
